@@ -62,6 +62,15 @@ def generate(rng, tier, cls):
             faults.append({'kind': 'skew', 'file': 'f1', 'section': i,
                            'key': key, 'value': v, 'pos': rng.below(6)})
 
+    if rng.chance(0.02):
+        # hundreds of (short) unknown options on one header
+        i = rng.below(n)
+
+        for j in range(rng.choice([120, 400, 700])):
+            faults.append({'kind': 'skew', 'file': 'f1', 'section': i,
+                           'key': 'k%d' % j, 'value': 'v%d' % (j % 7),
+                           'pos': 100000})
+
     bs = rng.choice([None, None, 1, 7, 64, 97])
     return {'actors': [prod], 'schedule': [], 'faults': faults,
             'block_size': bs, 'stream': gen.gen_stream(rng)[0]}
